@@ -12,10 +12,16 @@ Ests == StrictSeqs(0..PMax, NE) \ {<<>>}
 Init == ref \in Refs /\ est \in Ests /\ thr \in {<<1, 5>>, <<1, 4>>} /\ out = <<>> /\ pc = "in"
 Solve == /\ pc = "in" /\ pc' = "out" /\ UNCHANGED <<ref, est, thr>>
          /\ out' = [ps |-> PScore(ref, est, thr), goto |-> Goto(ref, est, <<35, 100>>, <<1, 5>>, <<1, 5>>),
-                    goto2 |-> Goto(ref, est, <<1, 4>>, <<1, 4>>, <<1, 2>>), cem |-> CemgilTerms(ref, est)]
+                    goto2 |-> Goto(ref, est, <<1, 4>>, <<1, 4>>, <<1, 2>>), cem |-> CemgilTerms(ref, est),
+                    cont |-> Continuity(ref, est, <<175, 1000>>, <<175, 1000>>), cont2 |-> Continuity(ref, est, <<1, 2>>, <<1, 4>>),
+                    igf |-> (IF Len(est) >= 2 /\ Len(ref) >= 2 THEN IGCounts(ref, est, 5) ELSE [counts |-> <<>>, edge |-> FALSE, early |-> FALSE]),
+                    igb |-> (IF Len(est) >= 2 /\ Len(ref) >= 2 THEN IGCounts(est, ref, 5) ELSE [counts |-> <<>>, edge |-> FALSE, early |-> FALSE]),
+                    igok |-> Len(est) >= 2 /\ Len(ref) >= 2]
 Next == Solve
 Spec == Init /\ [][Next]_vars
 (* C02 on the definitions: a copy of a reference with >= 5 beats satisfies Goto and has P-score 1 *)
-SelfPerfect == pc = "out" /\ ref = est /\ Len(ref) >= 5 => out.goto /\ out.ps.score = <<1, 1>>
+SelfPerfect == pc = "out" /\ ref = est /\ Len(ref) >= 5 => out.goto /\ out.ps.score = <<1, 1>> /\ out.cont[1] = <<1, 1>> /\ out.cont[2] = <<1, 1>>
+(* C07 on the definitions: continuous <= total, correct level <= any level *)
+ContNested == pc = "out" => RLeq(out.cont[1], out.cont[2]) /\ RLeq(out.cont[3], out.cont[4]) /\ RLeq(out.cont[1], out.cont[3]) /\ RLeq(out.cont[2], out.cont[4])
 Export == pc = "out" => PrintT("ROW" \o ToJson([ref |-> ref, est |-> est, thr |-> thr, out |-> out]))
 =============================================================================
